@@ -5,6 +5,7 @@ import (
 	"math"
 	"math/rand"
 	"sort"
+	"strings"
 
 	"github.com/yaricom/goNEAT/v4/neat"
 	"github.com/yaricom/goNEAT/v4/neat/genetics"
@@ -54,6 +55,23 @@ func runC08(c *Ctx, idx int) {
 				sc.Opts.MutdiffCoeff = 1
 			}
 			c.Count("scenarios.restored_from_a_dump_by_species_made_under_another_threshold", 1)
+		}
+		if idx%6 == 3 {
+			// a population spawned from a genome with the weights of a trained network, under a threshold of a few mutation powers
+			sc.Ctor = ctorSpawn
+			if !strings.Contains(sc.StartSrc, "heavy") {
+				heavyWeights(c.G, sc.Start)
+				sc.StartSrc += "+heavy-weights"
+			}
+			sc.Opts.MutdiffCoeff = pick(c.G, 0.4, 1.0)
+			c.Count("scenarios.spawned_from_a_genome_with_trained_weights", 1)
+		}
+		if idx%6 == 5 {
+			// stagnation until the whole population is delta coded: species that were given no offspring meet the babies of the others
+			sc.Fitness = fitStagnating
+			sc.Opts.DropOffAge = 1 + c.G.Intn(4)
+			sc.Epochs = 40
+			c.Count("scenarios.stagnating_until_delta_coding", 1)
 		}
 		mon := &specMonitor{inEpoch: true}
 		runScenario(c, sc, mon)
